@@ -141,6 +141,40 @@ func c19GenPlan(ctx *core.Ctx) []c19GenCase {
 			}
 		}
 	}
+	// entropy sources that fail for all producers at the same moment (SafePrimeGen.tla: cfg.bar = c): after j Read calls
+	// (j < numPrimes: the call cannot have its primes, so every producer arrives at the failing Read), for every
+	// concurrency 1..8; alone ("the consumer receives one error, nobody receives the others") and with the caller's
+	// context cancelled while the producers are inside the Read ("nobody receives any of them")
+	barReps := ctx.Pick(1, 8)
+	if os.Getenv("VERIF_C19_NOBARRIER") != "" {
+		barReps = 0 // sensitivity experiments only: what the check sees without the forced schedules
+	}
+	for r := 0; r < barReps; r++ {
+		for c := 1; c <= 8; c++ {
+			for j := 0; j <= 2; j++ {
+				for _, can := range []string{"none", "held"} {
+					bits := 6 + rng.Intn(11)
+					if j == 2 && r == 0 {
+						bits = []int{18, 32, 64, 128}[c%4]
+					}
+					add(c19GenCase{Bits: bits, C: c, N: j + 1 + rng.Intn(3-j), Entropy: "barrier", OkReads: j, Cancel: can, Procs: []int{1, 16}[(c+j+r)%2]})
+				}
+			}
+		}
+	}
+	// a transient fault: Read call number j+1 fails, all the others succeed - one producer reports the error and exits,
+	// the others go on; the call has to return (the error, or its primes if it had them first)
+	for r := 0; r < ctx.Pick(1, 6); r++ {
+		for c := 1; c <= 8; c++ {
+			for _, j := range []int{0, 1, 3} {
+				add(c19GenCase{Bits: 6 + rng.Intn(11), C: c, N: 1 + rng.Intn(3), Entropy: "transient", OkReads: j})
+			}
+		}
+	}
+	for _, bits := range []int{256, 1024}[:2*min(barReps, 1)] {
+		add(c19GenCase{Bits: bits, C: 8, N: 2, Entropy: "barrier", OkReads: 1, Procs: 16})
+		add(c19GenCase{Bits: bits, C: 6, N: 1, Entropy: "barrier", OkReads: 0, Cancel: "held", Procs: 16})
+	}
 	for _, bits := range []int{64, 256, 1024} {
 		add(c19GenCase{Bits: bits, C: 3, N: 2, Entropy: "zero", Procs: 16})
 		add(c19GenCase{Bits: bits, C: 3, N: 2, Entropy: "finite", FailAfter: bits / 8 * 3, Procs: 16})
@@ -198,17 +232,33 @@ func c19RunJob(j *c19Job, wg *sync.WaitGroup) {
 	}()
 }
 
-const c19SPGInvs = "TypeOK WaitGroupExact NoLeak NoSendOnClosed ErrSendNeverBlocks ResultCount NoSpuriousError PreCancelled NoEntropyNoPrimes PromptCancelBound"
+const c19SPGInvs = "TypeOK WaitGroupExact NoLeak NoSendOnClosed ErrSendNeverBlocks ResultCount NoSpuriousError PreCancelled NoEntropyNoPrimes PromptCancelBound HeldOnlyAtFailure"
 const c19SPGProps = "PromptCancel PromptEntropyFailure Terminates Settles"
 
+// capacities of the two channels: the code's (SafePrimeGen!CodePrimeCap, CodeErrCap) and the wrong ones of the regression runs
+const c19SPGWrap = "---- MODULE MC_SafePrimeGen ----\nEXTENDS SafePrimeGen\nConfigsVal == %s\n" +
+	"ErrCapOne(c) == 1\nErrCapAllButOne(c) == c.c - 1\nPrimeCapN(c) == c.n\n====\n"
+
 func c19SPGOpt(configs string, maxC int, sendSelects, closeBeforeWait, liveness bool, workers int, timeout time.Duration) tlc.Options {
-	wrap := "---- MODULE MC_SafePrimeGen ----\nEXTENDS SafePrimeGen\nConfigsVal == " + configs + "\n====\n"
-	cfg := fmt.Sprintf("SPECIFICATION Spec\nCONSTANTS\n  Configs <- ConfigsVal\n  SendSelectsOnCancel = %s\n  CloseBeforeWait = %s\n  MaxC = %d\nINVARIANTS %s\n",
-		c13TLCBool(sendSelects), c13TLCBool(closeBeforeWait), maxC, c19SPGInvs)
+	return c19SPGOptCaps(configs, maxC, sendSelects, closeBeforeWait, liveness, workers, timeout, "CodePrimeCap", "CodeErrCap", c19SPGInvs)
+}
+
+func c19SPGOptCaps(configs string, maxC int, sendSelects, closeBeforeWait, liveness bool, workers int, timeout time.Duration, primeCap, errCap, invs string) tlc.Options {
+	wrap := fmt.Sprintf(c19SPGWrap, configs)
+	cfg := fmt.Sprintf("SPECIFICATION Spec\nCONSTANTS\n  Configs <- ConfigsVal\n  SendSelectsOnCancel = %s\n  CloseBeforeWait = %s\n  MaxC = %d\n  PrimeCapOf <- %s\n  ErrCapOf <- %s\nINVARIANTS %s\n",
+		c13TLCBool(sendSelects), c13TLCBool(closeBeforeWait), maxC, primeCap, errCap, invs)
 	if liveness {
 		cfg += "PROPERTIES " + c19SPGProps + "\n"
 	}
 	return tlc.Options{Module: "MC_SafePrimeGen", Cfg: cfg, Workers: workers, Heap: "3g", Timeout: timeout, Files: map[string]string{"MC_SafePrimeGen.tla": wrap}}
+}
+
+// c19LastState is the text of the last state of TLC's error trace.
+func c19LastState(out string) string {
+	if i := strings.LastIndex(out, "State "); i >= 0 {
+		return out[i:]
+	}
+	return ""
 }
 
 // c19Printed extracts the JSON payload of a line <<"TAG", "...">> printed by TLC.
@@ -300,7 +350,7 @@ func c19TraceRun(module, cfg string, lines []string, timeout time.Duration) (hw 
 }
 
 func c19SPGTraceCfg(maxC int) string {
-	return fmt.Sprintf("SPECIFICATION TraceSpec\nCONSTANTS\n  Configs = {}\n  SendSelectsOnCancel = TRUE\n  CloseBeforeWait = FALSE\n  MaxC = %d\nINVARIANTS TraceInv\nCONSTRAINT HighWater\nPOSTCONDITION TraceAccepted\nCHECK_DEADLOCK FALSE\n", maxC)
+	return fmt.Sprintf("SPECIFICATION TraceSpec\nCONSTANTS\n  Configs = {}\n  SendSelectsOnCancel = TRUE\n  CloseBeforeWait = FALSE\n  MaxC = %d\n  PrimeCapOf <- CodePrimeCap\n  ErrCapOf <- CodeErrCap\nINVARIANTS TraceInv\nCONSTRAINT HighWater\nPOSTCONDITION TraceAccepted\nCHECK_DEADLOCK FALSE\n", maxC)
 }
 
 const c19OracleCfg = "SPECIFICATION TraceSpec\nCONSTANTS\n  Bounds = {}\nCONSTRAINT HighWater\nPOSTCONDITION TraceAccepted\nCHECK_DEADLOCK FALSE\n"
@@ -411,19 +461,48 @@ type c19GenSummary struct {
 	unsettled []string // cases whose hang could not be confirmed nor refuted
 }
 
-// c19JudgeHangOrCrash handles a generator case that did not come back normally. Returns (violation reported, resolved result).
+// c19ForcingTwin returns, for a case whose entropy source fails, the case with the same arguments in which the source
+// fails for all producers at the same moment (the barrier reader): what the load of the machine did by accident in the
+// batch, done on purpose.
+func c19ForcingTwin(cs c19GenCase) (c19GenCase, bool) {
+	if cs.Entropy != "zero" && cs.Entropy != "finite" {
+		return cs, false
+	}
+	t := cs
+	t.Entropy, t.OkReads, t.FailAfter = "barrier", 0, 0
+	if cs.Entropy == "finite" {
+		if per := (cs.Bits - 1 + 7) / 8; per > 0 {
+			t.OkReads = cs.FailAfter / per
+		}
+		if t.OkReads > 3 {
+			t.OkReads = 3
+		}
+	}
+	if cs.Cancel == "during" {
+		t.Cancel, t.DelayUs = "held", 0
+	}
+	return t, true
+}
+
+// genAbnormal handles a generator case that did not come back normally. Returns (violation reported, resolved result).
+//
+// A call that does not return contradicts "stops promptly with an error ... and leaves no goroutine behind".  It is
+// reported when (a) it shows again in a fresh process that runs nothing else (up to three re-runs of the case, then of
+// its forcing twin), or (b) the dump taken in the batch is itself a proof: at least four consecutive identical dumps in
+// which every library goroutine is parked by a library frame on an object local to the call (c19DeadlockCert) - a
+// deadlock that needs a particular schedule is a deadlock.
 func (s *c19State) genAbnormal(d c19Done) (reported bool, resolved *c19Done, err error) {
 	cs := *d.Payload.Gen
 	size := c19SizeClass(cs.Bits)
-	desc := fmt.Sprintf("GetRandomSafePrimesConcurrent(bitLen=%d, numPrimes=%d, concurrency=%d) [GOMAXPROCS %d, entropy %s, cancellation %s]", cs.Bits, cs.N, cs.C, cs.Procs, cs.Entropy, cs.Cancel)
-	kind, dump := "", ""
-	var o c19GenOut
-	if d.Status == "ok" {
-		json.Unmarshal(d.Raw, &o)
-		kind, dump = o.Outcome, o.Dump
-	} else {
-		kind, dump = d.Status, d.Detail // crash | hang (seen by the parent) | panic
+	desc := c19GenDesc(cs)
+	read := func(d c19Done) (kind, dump string, o c19GenOut) {
+		if d.Status == "ok" {
+			json.Unmarshal(d.Raw, &o)
+			return o.Outcome, o.Dump, o
+		}
+		return d.Status, d.Detail, o // crash | hang (seen by the parent) | panic
 	}
+	kind, dump, o := read(d)
 	scale := 1
 	if kind == "busy" {
 		scale = 4
@@ -433,6 +512,8 @@ func (s *c19State) genAbnormal(d c19Done) (reported bool, resolved *c19Done, err
 	}
 	var again c19Done
 	kind2, dump2 := "", ""
+	var o2 c19GenOut
+	scenario := d.Payload
 	attempts := 1
 	if kind == "deadlock" || kind == "crash" {
 		attempts = 3 // these depend on the schedule, not on the load: they need not show again at once
@@ -442,18 +523,34 @@ func (s *c19State) genAbnormal(d c19Done) (reported bool, resolved *c19Done, err
 		if err != nil {
 			return false, nil, err
 		}
-		var o2 c19GenOut
-		if again.Status == "ok" {
-			json.Unmarshal(again.Raw, &o2)
-			kind2, dump2 = o2.Outcome, o2.Dump
-		} else {
-			kind2, dump2 = again.Status, again.Detail
-		}
+		kind2, dump2, o2 = read(again)
 		if abnormal(kind2) {
 			break
 		}
 	}
+	how := "in the batch and again alone in a fresh process"
+	if !abnormal(kind2) && kind == "deadlock" {
+		if twin, ok := c19ForcingTwin(cs); ok {
+			tw, e := c19Confirm(c19Payload{Gen: &twin}, 1)
+			if e != nil {
+				return false, nil, e
+			}
+			if k, dm, ot := read(tw); k == "deadlock" && ot.Cert != "" {
+				kind2, dump2, o2 = k, dm, ot
+				scenario = c19Payload{Gen: &twin}
+				desc = c19GenDesc(twin)
+				how = fmt.Sprintf("in the batch (case %s, where the load of the machine let the producers fail together) and again alone in a fresh process with the entropy source made to fail for all producers at the same moment", cs.ID())
+			}
+		}
+	}
 	if !abnormal(kind2) {
+		if kind == "deadlock" && o.Cert != "" && o.Samples >= 4 {
+			// not reproduced alone, but the dump of the batch run is a proof by itself
+			s.ctx.Report(fmt.Sprintf("C19:GetRandomSafePrimesConcurrent:never-returns:deadlock:%s", size),
+				fmt.Sprintf("%s did not return: in %d consecutive dumps one second apart every goroutine of the library is parked by a library frame on a channel / WaitGroup local to the call, none runnable, no action of the harness pending [%s]; this needs a particular schedule (%d re-runs alone returned):\n%s",
+					desc, o.Samples, o.Cert, attempts, core.Short(dump, 5000)), d.Payload)
+			return true, nil, nil
+		}
 		if kind == "deadlock" || kind == "crash" {
 			// seen once, with the dump, but not reproducible alone: neither a verdict nor nothing
 			s.ctx.Note("generator case %s: %s once in the batch, not in %d re-runs alone:\n%s", cs.ID(), kind, attempts, core.Short(dump, 3000))
@@ -472,8 +569,12 @@ func (s *c19State) genAbnormal(d c19Done) (reported bool, resolved *c19Done, err
 	}
 	switch kind2 {
 	case "deadlock":
+		cert := ""
+		if o2.Cert != "" {
+			cert = " [" + o2.Cert + "]"
+		}
 		s.ctx.Report(fmt.Sprintf("C19:GetRandomSafePrimesConcurrent:never-returns:deadlock:%s", size),
-			fmt.Sprintf("%s did not return (in the batch and again alone in a fresh process; watchdog limit %d s): every goroutine of the library is blocked, the same goroutines in the same blocking states in consecutive dumps, no action of the harness pending:\n%s", desc, cs.DeadlineS, core.Short(dump2, 5000)), d.Payload)
+			fmt.Sprintf("%s did not return (%s; watchdog limit %d s): every goroutine of the library is blocked, the same goroutines in the same blocking states in consecutive dumps, no action of the harness pending%s:\n%s", desc, how, cs.DeadlineS, cert, core.Short(dump2, 5000)), scenario)
 		return true, nil, nil
 	case "busy":
 		if size == "toy" || size == "small" {
@@ -518,6 +619,10 @@ func (s *c19State) runGen(cases []c19GenCase, parallel int) (sum c19GenSummary, 
 			}
 			var retry []c19Payload
 			confirmations := 0
+			// cases whose schedule is forced (barrier reader) first: what they show, they show again when re-run alone
+			sort.SliceStable(ds, func(i, j int) bool {
+				return ds[i].Payload.Gen.Entropy == "barrier" && ds[j].Payload.Gen.Entropy != "barrier"
+			})
 			for _, d := range ds {
 				var o c19GenOut
 				if d.Status == "ok" {
@@ -638,19 +743,27 @@ func c19Main(s *c19State) error {
 	}
 	addJob("samplers", c19SamplersOpt(ctx.Thorough()))
 	// the two wrong designs (regression demonstrations): the deadlock of the code before commit 89caa94, and closing before the join
-	one := "{[c |-> 2, n |-> 1, budget |-> -1, pre |-> FALSE]}"
+	one := "{[c |-> 2, n |-> 1, budget |-> -1, pre |-> FALSE, bar |-> 0, heal |-> FALSE]}"
 	if ctx.Thorough() {
-		one = "{[c |-> 3, n |-> 2, budget |-> -1, pre |-> FALSE]}"
+		one = "{[c |-> 3, n |-> 2, budget |-> -1, pre |-> FALSE, bar |-> 0, heal |-> FALSE]}"
 	}
 	addJob("spg-defect-send", c19SPGOpt(one, 3, false, false, false, 1, 10*time.Minute))
 	addJob("spg-defect-close", c19SPGOpt(one, 3, true, true, false, 1, 10*time.Minute))
+	// errCh with less room than one error per producer: (1) capacity 1, three producers whose entropy source has failed -
+	// the consumer receives one error and returns, one more fits, the third producer blocks in its send for ever and
+	// wg.Wait() with it; (2) capacity c-1: the same as soon as the consumer returns for another reason (cancellation)
+	addJob("spg-defect-errcap-1", c19SPGOptCaps("[c : {3}, n : {1}, budget : {0}, pre : {FALSE}, bar : {0, 3}, heal : {FALSE}]", 3, true, false, false, 1, 10*time.Minute, "CodePrimeCap", "ErrCapOne", "TypeOK"))
+	addJob("spg-defect-errcap-c-1", c19SPGOptCaps(fmt.Sprintf("[c : 2..%d, n : {1}, budget : {0, 1}, pre : {FALSE}, bar : {0}, heal : {FALSE}]", ctx.Pick(2, 3)), 3, true, false, false, 1, 10*time.Minute, "CodePrimeCap", "ErrCapAllButOne", "TypeOK"))
 	if ctx.Thorough() {
-		addJob("spg-safety", c19SPGOpt("[c : 1..4, n : 1..3, budget : {-1, 0, 1, 2, 3, 4}, pre : BOOLEAN]", 4, true, false, false, 6, 40*time.Minute))
-		addJob("spg-liveness", c19SPGOpt("[c : 1..3, n : 1..2, budget : {-1, 0, 1, 2, 3}, pre : BOOLEAN]", 3, true, false, true, 6, 40*time.Minute))
+		addJob("spg-safety", c19SPGOpt("[c : 1..4, n : 1..3, budget : {-1, 0, 1, 2, 3, 4}, pre : BOOLEAN, bar : {0}, heal : {FALSE}] \\cup [c : 1..4, n : 1..3, budget : {0, 1, 2}, pre : {FALSE}, bar : {1, 4}, heal : {FALSE}] \\cup [c : 1..4, n : 1..3, budget : {0, 1, 2}, pre : BOOLEAN, bar : {0}, heal : {TRUE}]", 4, true, false, false, 6, 40*time.Minute))
+		addJob("spg-liveness", c19SPGOpt("[c : 1..3, n : 1..2, budget : {-1, 0, 1, 2, 3}, pre : BOOLEAN, bar : {0}, heal : {FALSE}] \\cup [c : {3}, n : 1..2, budget : {0, 1}, pre : {FALSE}, bar : {3}, heal : {FALSE}] \\cup [c : 2..3, n : 1..2, budget : {0, 1}, pre : {FALSE}, bar : {0}, heal : {TRUE}]", 3, true, false, true, 6, 40*time.Minute))
+		// primeCh with room for numPrimes results only: harmless, because that send gives up when the generator context is done
+		addJob("spg-primecap-n", c19SPGOptCaps("[c : 1..3, n : 1..2, budget : {-1, 0, 2}, pre : BOOLEAN, bar : {0}, heal : {FALSE}]", 3, true, false, true, 6, 40*time.Minute, "PrimeCapN", "CodeErrCap", c19SPGInvs))
 	} else {
 		// quick: invariants and liveness for c <= 2 in one run (all budgets), invariants for c = 3 on the two budgets that matter
-		addJob("spg-safety", c19SPGOpt("[c : {3}, n : 1..2, budget : {-1, 2}, pre : BOOLEAN]", 3, true, false, false, 3, 20*time.Minute))
-		addJob("spg-liveness", c19SPGOpt("[c : 1..2, n : 1..2, budget : {-1, 0, 1, 2}, pre : BOOLEAN]", 2, true, false, true, 3, 20*time.Minute))
+		// and on the sources that fail for all three producers at once
+		addJob("spg-safety", c19SPGOpt("[c : {3}, n : 1..2, budget : {-1, 2}, pre : BOOLEAN, bar : {0}, heal : {FALSE}] \\cup [c : {3}, n : 1..2, budget : {0, 1}, pre : {FALSE}, bar : {3}, heal : {FALSE}] \\cup [c : {3}, n : 1..2, budget : {0, 1}, pre : {FALSE}, bar : {0}, heal : {TRUE}]", 3, true, false, false, 3, 20*time.Minute))
+		addJob("spg-liveness", c19SPGOpt("[c : 1..2, n : 1..2, budget : {-1, 0, 1, 2}, pre : BOOLEAN, bar : {0}, heal : {FALSE}] \\cup [c : {2}, n : {1}, budget : {0, 1}, pre : {FALSE}, bar : {2}, heal : {FALSE}] \\cup [c : {2}, n : 1..2, budget : {0, 1}, pre : {FALSE}, bar : {0}, heal : {TRUE}]", 2, true, false, true, 3, 20*time.Minute))
 	}
 
 	// ---------------- the real code, wave 1: generator, helpers, pre-parameters in child processes
@@ -723,6 +836,10 @@ func c19Main(s *c19State) error {
 	var toyPrimes []int64
 	toySeen := map[int64]bool{}
 	maxAfterCancel := map[string]float64{}
+	// the calls with a barrier reader are validated in a run of their own, with more producers in the model
+	barMaxC := ctx.Pick(4, 6)
+	var barOrder []string
+	barStats := map[string]int{}
 	for _, d := range genSum.results {
 		cs := *d.Payload.Gen
 		var o c19GenOut
@@ -736,11 +853,31 @@ func c19Main(s *c19State) error {
 		if o.CancelBefore && o.AfterCancelMs > maxAfterCancel[c19SizeClass(cs.Bits)] {
 			maxAfterCancel[c19SizeClass(cs.Bits)] = o.AfterCancelMs
 		}
+		if cs.Entropy == "barrier" {
+			switch {
+			case !o.BarOpened:
+				barStats["reader never opened during the call"]++
+			case o.BarForced:
+				barStats["reader opened before all producers were inside (time limit)"]++
+			case cs.Cancel == "held":
+				barStats[fmt.Sprintf("all producers failed together after the cancellation: c=%d", cs.C)]++
+			default:
+				barStats[fmt.Sprintf("all producers failed together: c=%d", cs.C)]++
+			}
+		}
 		if len(vs) == 0 {
-			if lines := c19TraceLines(cs, o, maxC); lines != nil {
+			mc := maxC
+			if cs.Entropy == "barrier" {
+				mc = barMaxC
+			}
+			if lines := c19TraceLines(cs, o, mc); lines != nil {
 				k := strings.Join(lines, "\n")
 				if traceMult[k] == 0 {
-					traceOrder = append(traceOrder, k)
+					if cs.Entropy == "barrier" {
+						barOrder = append(barOrder, k)
+					} else {
+						traceOrder = append(traceOrder, k)
+					}
 					traceOwner[k] = d.Payload
 				}
 				traceMult[k]++
@@ -1168,35 +1305,47 @@ func c19Main(s *c19State) error {
 	// ---------------- binding (A): the generator runs against SafePrimeGen_Trace
 	bindA := func() error {
 		traced := 0
-		if len(traceOrder) > 0 {
-			chunks := ctx.Pick(2, 4)
-			if chunks > len(traceOrder) {
-				chunks = 1
-			}
+		if len(traceOrder)+len(barOrder) > 0 {
 			type chunk struct {
 				lines []string
 				owner []string
+				maxC  int
 			}
-			cks := make([]chunk, chunks)
-			for i, k := range traceOrder {
-				c := &cks[i%chunks]
-				for _, l := range strings.Split(k, "\n") {
-					c.lines = append(c.lines, l)
-					c.owner = append(c.owner, k)
+			var cks []*chunk
+			split := func(order []string, chunks, mc int) {
+				if len(order) == 0 {
+					return
+				}
+				if chunks > len(order) {
+					chunks = 1
+				}
+				base := len(cks)
+				for i := 0; i < chunks; i++ {
+					cks = append(cks, &chunk{maxC: mc})
+				}
+				for i, k := range order {
+					c := cks[base+i%chunks]
+					for _, l := range strings.Split(k, "\n") {
+						c.lines = append(c.lines, l)
+						c.owner = append(c.owner, k)
+					}
 				}
 			}
+			split(traceOrder, ctx.Pick(2, 4), maxC)
+			split(barOrder, ctx.Pick(1, 2), barMaxC)
 			var cwg sync.WaitGroup
-			errs := make([]error, chunks)
+			errs := make([]error, len(cks))
 			for i := range cks {
 				cwg.Add(1)
 				go func(i int) {
 					defer cwg.Done()
-					hw, res, e := c19TraceRun("SafePrimeGen_Trace", c19SPGTraceCfg(maxC), cks[i].lines, 30*time.Minute)
+					hw, res, e := c19TraceRun("SafePrimeGen_Trace", c19SPGTraceCfg(cks[i].maxC), cks[i].lines, 30*time.Minute)
 					if e != nil {
 						errs[i] = fmt.Errorf("trace validation machinery: %v", e)
 						return
 					}
 					cov.AddMC(res.Distinct, res.Generated)
+					s.dbg("trace chunk %d (MaxC %d): %d lines, %d distinct / %d generated states, %.1fs", i, cks[i].maxC, len(cks[i].lines), res.Distinct, res.Generated, res.Wall)
 					if !(res.OK && hw == len(cks[i].lines)) {
 						line := hw + 1
 						if line > len(cks[i].lines) {
@@ -1207,54 +1356,89 @@ func c19Main(s *c19State) error {
 					}
 				}(i)
 			}
-			// self test: a corrupted record must be rejected
-			var selfErr error
-			cwg.Add(1)
-			go func() {
-				defer cwg.Done()
-				var base []string
-				for _, k := range traceOrder {
-					if strings.Contains(k, `"outcome":"primes"`) && !strings.Contains(k, `"Cancel"`) {
-						base = strings.Split(k, "\n")
-						break
+			// self tests: corrupted records must be rejected at the corrupted line
+			var selfErr [2]error
+			selfTest := func(slot int, what string, order []string, mc int, pick func(k string) bool, corrupt func(line string) (string, bool)) {
+				cwg.Add(1)
+				go func() {
+					defer cwg.Done()
+					var base []string
+					for _, k := range order {
+						if pick(k) {
+							base = strings.Split(k, "\n")
+							break
+						}
 					}
-				}
-				if base == nil {
-					return
-				}
-				bad := make([]string, len(base))
-				copy(bad, base)
-				for i := range bad {
-					if strings.Contains(bad[i], `"ev":"Return"`) {
-						bad[i] = `{"count":0,"ev":"Return","outcome":"cancelled"}`
+					if base == nil {
+						return
 					}
-				}
-				hw, _, e := c19TraceRun("SafePrimeGen_Trace", c19SPGTraceCfg(maxC), bad, 10*time.Minute)
-				if e != nil {
-					selfErr = fmt.Errorf("trace self test: %v", e)
-				} else if hw != 1 {
-					selfErr = fmt.Errorf("trace self test: an undisturbed call recorded as returning ErrGeneratorCancelled was explained up to line %d (expected 1)", hw)
-				}
-			}()
+					bad := make([]string, len(base))
+					copy(bad, base)
+					at := -1
+					for i := range bad {
+						if nl, ok := corrupt(bad[i]); ok && at < 0 {
+							bad[i], at = nl, i
+						}
+					}
+					if at < 0 {
+						return
+					}
+					hw, _, e := c19TraceRun("SafePrimeGen_Trace", c19SPGTraceCfg(mc), bad, 10*time.Minute)
+					if e != nil {
+						selfErr[slot] = fmt.Errorf("trace self test: %v", e)
+					} else if hw != at {
+						selfErr[slot] = fmt.Errorf("trace self test: %s was explained up to line %d (expected %d)", what, hw, at)
+					}
+				}()
+			}
+			selfTest(0, "an undisturbed call recorded as returning ErrGeneratorCancelled", traceOrder, maxC,
+				func(k string) bool { return strings.Contains(k, `"outcome":"primes"`) && !strings.Contains(k, `"Cancel"`) },
+				func(l string) (string, bool) {
+					if strings.Contains(l, `"ev":"Return"`) {
+						return `{"count":0,"ev":"Return","outcome":"cancelled"}`, true
+					}
+					return l, false
+				})
+			// a reader recorded as having opened by itself with one producer fewer inside than its width
+			selfTest(1, "a barrier reader recorded as open by count with a producer missing", barOrder, barMaxC,
+				func(k string) bool {
+					return strings.Contains(k, `"forced":false`) && !strings.Contains(k, `"held":1}`) && !strings.Contains(k, `"Cancel"`)
+				},
+				func(l string) (string, bool) {
+					if strings.Contains(l, `"ev":"BarrierOpen"`) {
+						var e struct {
+							Held int `json:"held"`
+						}
+						json.Unmarshal([]byte(l), &e)
+						return fmt.Sprintf(`{"ev":"BarrierOpen","forced":false,"held":%d}`, e.Held-1), true
+					}
+					return l, false
+				})
 			cwg.Wait()
 			for _, e := range errs {
 				if e != nil {
 					return core.Inconcl("%v", e)
 				}
 			}
-			if selfErr != nil {
-				return core.Inconcl("%v", selfErr)
+			for _, e := range selfErr {
+				if e != nil {
+					return core.Inconcl("%v", e)
+				}
 			}
 			for _, k := range traceOrder {
 				traced += traceMult[k]
 			}
+			for _, k := range barOrder {
+				traced += traceMult[k]
+			}
 			cov.AddTraces(traced)
 			cov.Set("generator_runs_explained_by_SafePrimeGen_Trace", traced)
-			cov.Set("distinct_recorded_calls", len(traceOrder))
-			cov.Set("trace_concurrency_projection", fmt.Sprintf("min(concurrency, %d)", maxC))
+			cov.Set("distinct_recorded_calls", len(traceOrder)+len(barOrder))
+			cov.Set("distinct_recorded_calls_with_barrier_reader", len(barOrder))
+			cov.Set("trace_concurrency_projection", fmt.Sprintf("min(concurrency, %d); calls with a barrier reader min(concurrency, %d)", maxC, barMaxC))
 		}
 
-		s.dbg("trace validation done (%d distinct calls)", len(traceOrder))
+		s.dbg("trace validation done (%d + %d distinct calls)", len(traceOrder), len(barOrder))
 		return nil
 	}
 	// ---------------- binding (C): TLC as oracle for the toy-sized values
@@ -1378,13 +1562,29 @@ func c19Main(s *c19State) error {
 			cov.AddMC(j.Res.Distinct, j.Res.Generated)
 			mcOut = append(mcOut, map[string]any{"run": name, "distinct": j.Res.Distinct, "generated": j.Res.Generated, "depth": j.Res.Depth, "wall_s": j.Res.Wall})
 		}
-		// the two wrong designs must be refuted by TLC in the expected way (self test of the model)
+		// the wrong designs must be refuted by TLC in the expected way (self test of the model)
 		if j := jobs["spg-defect-send"]; j.Res.Err != nil || j.Res.Violated != "deadlock" ||
-			!strings.Contains(j.Res.Output[strings.LastIndex(j.Res.Output, "State "):], `cpc = "ret_wait"`) ||
-			!strings.Contains(j.Res.Output[strings.LastIndex(j.Res.Output, "State "):], `"send"`) {
+			!strings.Contains(c19LastState(j.Res.Output), `cpc = "ret_wait"`) ||
+			!strings.Contains(c19LastState(j.Res.Output), `"send"`) {
 			return core.Inconcl("SafePrimeGen with SendSelectsOnCancel = FALSE (the design before commit 89caa94) should deadlock with producers in \"send\" and the consumer in \"ret_wait\": err=%v violated=%q", j.Res.Err, j.Res.Violated)
 		} else {
 			mcOut = append(mcOut, map[string]any{"run": "spg-defect-send (SendSelectsOnCancel=FALSE)", "expected": "deadlock: producers blocked in send, consumer in wg.Wait", "found": j.Res.Violated, "distinct": j.Res.Distinct, "generated": j.Res.Generated})
+		}
+		for _, name := range []string{"spg-defect-errcap-1", "spg-defect-errcap-c-1"} {
+			j := jobs[name]
+			if j.Res.Err != nil || j.Res.Violated != "deadlock" ||
+				!strings.Contains(c19LastState(j.Res.Output), `cpc = "ret_wait"`) ||
+				!strings.Contains(c19LastState(j.Res.Output), `"senderr"`) {
+				return core.Inconcl("SafePrimeGen with an error channel of capacity below the number of producers (%s) should deadlock with a producer in \"senderr\" and the consumer in \"ret_wait\": err=%v violated=%q", name, j.Res.Err, j.Res.Violated)
+			}
+			mcOut = append(mcOut, map[string]any{"run": name + " (ErrCap < c)", "expected": "deadlock: producers blocked in the error send, consumer in wg.Wait", "found": j.Res.Violated, "distinct": j.Res.Distinct, "generated": j.Res.Generated})
+		}
+		if j, ok := jobs["spg-primecap-n"]; ok {
+			if j.Res.Err != nil || !j.Res.OK {
+				return core.Inconcl("SafePrimeGen with PrimeCap = numPrimes (the result send gives up on cancellation) should satisfy the design: err=%v violated=%q", j.Res.Err, j.Res.Violated)
+			}
+			cov.AddMC(j.Res.Distinct, j.Res.Generated)
+			mcOut = append(mcOut, map[string]any{"run": "spg-primecap-n (PrimeCap = numPrimes)", "expected": "no error", "distinct": j.Res.Distinct, "generated": j.Res.Generated})
 		}
 		if j := jobs["spg-defect-close"]; j.Res.Err != nil || j.Res.Violated != "NoSendOnClosed" {
 			return core.Inconcl("SafePrimeGen with CloseBeforeWait = TRUE should violate NoSendOnClosed: err=%v violated=%q", j.Res.Err, j.Res.Violated)
@@ -1473,6 +1673,7 @@ func c19Main(s *c19State) error {
 	cov.Set("generator_cases", len(genCases))
 	cov.Set("generator_cases_finished", len(genSum.results))
 	cov.Set("generator_outcomes", outcomes)
+	cov.Set("barrier_reader_schedules", barStats)
 	cov.Set("max_ms_between_cancellation_and_return", maxAfterCancel)
 	cov.Set("helper_cases", len(samplerCases))
 	cov.Set("helper_outcomes", samplerOutcomes)
